@@ -107,6 +107,8 @@ class Impl:
         u = L.utils
         _seams_on(u)
         self.tty = world.setup("kitty", e.cols, e.rows)
+        # standard output is not the active terminal: shutil.get_terminal_size() reports this constant
+        self.tty.stdout_size = _STDOUT
         # op "start": the real _process_start_wrapper on a process object that starts nothing
         u.mp_RLock, u.Array = sched.HProcLock, sched.HArray
         u._process_start_wrapper.__wrapped__ = lambda proc, *a, **k: None
@@ -140,7 +142,7 @@ class Impl:
                 me.fail_next = False
                 raise ProbeFailure("tsc")
             t = me.tty
-            return (t.cols, t.rows, t.xpx, t.ypx, me.envs[me.e].q_area)
+            return M.tval(me.e, M.Env(t.cols, t.rows, t.xpx, t.ypx, None, me.envs[me.e].q_area))
 
         def cprobe_body(arg):
             me = Impl._current
@@ -148,7 +150,7 @@ class Impl:
             if me.fail_next:
                 me.fail_next = False
                 raise ProbeFailure(arg)
-            return (arg, me.e)
+            return M.cval(arg, me.e)
 
         return u.terminal_size_cached(tprobe_body), u.cached(cprobe_body)
 
@@ -322,12 +324,16 @@ def searches(tier):
     """(name, alphabet group, environment indices, depth bound or None = fixpoint, merged?)"""
     small = [("cell", "cell", [0, 1, 2, 7], None, True),
              ("query-memos", "query-memos", [0], None, True),
-             ("probes", "probes", [0, 1, 2], None, True)]
+             ("probes", "probes", [0, 1, 2], None, True),
+             # standard output redirected: the library's get_terminal_size() and shutil's disagree
+             ("probes-redirected", "probes", [0, 1, 2], None, True)]
     if tier == "quick":
         return small
     return small + [("cell-large", "cell-large", [0, 1, 2, 3, 4, 5, 6, 7], None, True),
                     ("query-memos-large", "query-memos3", [0, 3], None, True),
                     ("probes-large", "probes+switches", [0, 1, 2, 3], None, True),
+                    ("probes-large-redirected", "probes+switches", [0, 1, 2, 3], None, True),
+                    ("cell-redirected", "cell", [0, 1, 2, 7], None, True),
                     ("all", "all", [0, 1, 2], 6, True),
                     ("cell-unmerged", "cell", [0, 1, 2, 7], 4, False),
                     ("query-memos-unmerged", "query-memos", [0], 5, False),
@@ -337,6 +343,8 @@ def searches(tier):
 # ---------------------------------------------------------------------------------- BFS (level-parallel)
 _CTX = None
 _JOB = None      # (name, envs, ops, merged)
+_STDOUT = None   # VTty.stdout_size of the search in progress (None: standard output is the terminal)
+REDIRECTED = (80, 24)   # differs from every terminal size of the resize alphabet
 
 
 def _expand(histories):
@@ -363,9 +371,11 @@ def _expand(histories):
             if v is not None:
                 sig, what = v
                 search = name.replace("-unmerged", "").replace("-large", "")
+                stdout = list(_STDOUT) if _STDOUT else None
                 steps = [ops[i] for i in h2]
                 col.violation(sig, f"after {steps[:-1]}: {what}",
-                              dict(kind="history", search=search, envs=[list(e) for e in envs], steps=steps))
+                              dict(kind="history", search=search, stdout_size=stdout, envs=[list(e) for e in envs],
+                                   steps=steps))
                 mach = None
                 continue
             if mach.model.notes:
@@ -378,7 +388,8 @@ def _expand(histories):
 
 
 def bfs(ctx, name, group, env_idx, depth, merged):
-    global _JOB
+    global _JOB, _STDOUT
+    _STDOUT = REDIRECTED if "redirected" in name else None
     envs = [M.ENVS[i] for i in env_idx]
     ops = alphabet(group, len(envs))
     _JOB = (name, envs, ops, merged)
@@ -446,7 +457,7 @@ def _opname(op):
 
 
 # ---------------------------------------------------------------------------------- thread part
-PROBE_NAMES = ("cprobe_body", "tprobe_body")
+PROBE_NAMES = ("cprobe_body", "tprobe_body", "tprobe_none_body")
 
 
 def thread_harnesses(tier):
@@ -454,6 +465,8 @@ def thread_harnesses(tier):
     b = 2 if q else 3
     H = [dict(name="cached-same-arg", calls=[["c", 0], ["c", 0]], bound=b),
          dict(name="cached-three", calls=[["c", 0], ["c", 1], ["c", 0]], bound=b),
+         dict(name="cached-none-first-calls", calls=[["c", 2], ["c", 2]], bound=b),
+         dict(name="tsc-none-first-calls", calls=[["tn"], ["tn"]], bound=b),
          dict(name="tsc-first-calls", calls=[["t"], ["t"]], bound=b),
          dict(name="tsc-three", calls=[["t"], ["t"], ["t"]], bound=b),
          dict(name="fgbg-redecorated", calls=[["f"], ["f"]], bound=b),
@@ -493,7 +506,7 @@ def t_execute(spec, prefix=()):
     def make(mod):
         def cprobe_body(arg):
             st.runs[("c", arg)] = st.runs.get(("c", arg), 0) + 1
-            v = ("value", arg, st.runs[("c", arg)])
+            v = ("value", arg, st.runs[("c", arg)]) if arg != 2 else None     # argument 2: the result is None
             return v
 
         def tprobe_body():
@@ -501,7 +514,13 @@ def t_execute(spec, prefix=()):
             v = ("tvalue", st.runs["t"])
             return v
 
+        def tprobe_none_body():
+            st.runs["tn"] = st.runs.get("tn", 0) + 1
+            v = None
+            return v
+
         return dict(c=mod.cached(cprobe_body), t=mod.terminal_size_cached(tprobe_body),
+                    tn=mod.terminal_size_cached(tprobe_none_body),
                     f=mod.cached(mod.get_fg_bg_colors.__wrapped__),
                     n=mod.cached(mod.get_terminal_name_version.__wrapped__))
 
@@ -521,8 +540,8 @@ def t_execute(spec, prefix=()):
             k = c[0]
             if k == "c":
                 r = fns[pid]["c"](c[1])
-            elif k == "t":
-                r = fns[pid]["t"]()
+            elif k == "t" or k == "tn":
+                r = fns[pid][k]()
             elif k == "ti":
                 r = fns[pid]["t"]._invalidate_terminal_size_cache()
             elif k == "ci":
@@ -580,10 +599,10 @@ def t_judge(col, spec, ch, s, model, tty, st, case=None):
     for key, n in sorted(st.runs.items(), key=repr):
         if n > 1 and not inval:
             viol("body-ran-twice", f"memoized body {key} ran {n} times for concurrent first calls",
-                 decorator="cached" if key != "t" else "terminal_size_cached")
+                 decorator="cached" if key not in ("t", "tn") else "terminal_size_cached")
     vals = {}
     for tag, i, k, arg, r in st.results:
-        if k in ("c", "t"):
+        if k in ("c", "t", "tn"):
             vals.setdefault((k, arg), set()).add(r)
     for key, v in vals.items():
         if len(v) > 1 and not inval:
@@ -783,6 +802,8 @@ def replay(ctx, case):
             sched.restore_instances()
         return
     envs = [M.Env(*[tuple(x) if isinstance(x, list) else x for x in e]) for e in case["envs"]]
+    global _STDOUT
+    _STDOUT = tuple(case["stdout_size"]) if case.get("stdout_size") else None
     mach = Machine(envs)
     steps = [[o[0]] + [(x if not isinstance(x, list) else tuple(x)) for x in o[1:]] for o in case["steps"]]
     for i, op in enumerate(steps):
